@@ -170,6 +170,16 @@ func gen(rng *rand.Rand, tier core.Tier, emit core.Emit) {
 			}
 		}
 	}
+	// a details probe fails (retries left) while a port probe of the same server succeeds on ANOTHER query port: the
+	// re-queued details probe still carries the old port; when it is popped later it must be worked off like any other
+	// (it fails for good and clears the mark) — a probe consumed without an outcome leaves the mark behind
+	{
+		init := fmt.Sprintf("call|add!%s/10481/70/1/z!refuse,call|penq!%s!10481!0!0!1!z!z", a1, a1) // master|info|port, one details probe
+		portOK2 := fmt.Sprintf("@probe|%s|10480|1|0|2|ok:10484:%s:4", a1, hexs("moved"))
+		for k := 1; k <= 3; k++ {
+			emit("uc", init, "pop|1|fail,"+portOK2+",@pop|1|fail", strings.Repeat("c0,", k)+"r1,r0,t3000000000,r2")
+		}
+	}
 	// the prober resolves the fresh probe before the mark is committed (success / retry)
 	for _, outcome := range []string{"ok:10481:" + hexs("q") + ":4", "fail"} {
 		for c := 3; c <= 4; c++ {
